@@ -27,9 +27,11 @@ from . import c14
 
 
 class Sess:
-    def __init__(self, noise: bool = False) -> None:
-        w = ConnWorld(client=True, login=True, noise=noise)
+    def __init__(self, noise: bool = False, keepalive: float | None = None) -> None:
+        kw: dict[str, Any] = {} if keepalive is None else {"keepalive": keepalive}
+        w = ConnWorld(client=True, login=True, noise=noise, **kw)
         w.connect_fully()
+        self.keepalive = keepalive
         self.w = w
         self.client = w.client
         self.sock = w.sock
@@ -45,6 +47,18 @@ class Sess:
             for m in msgs:
                 w.io_chunk(self.sock, w.dframe(m))
                 w.drain()
+
+    def until_ping_outstanding(self) -> None:
+        """Let keepalive intervals pass in silence until the client has just written a PingRequest (its pong timer is armed)."""
+        assert self.keepalive is not None
+        w = self.w
+        for _ in range(4):
+            w.loop.advance_to(w.loop.time() + self.keepalive)
+            w.drain()
+            if any(n == "PingRequest" for n, _ in self.written()):
+                w.loop.advance_to(w.loop.time() + 0.25 * self.keepalive)
+                return
+        raise HarnessError("no keepalive ping within four silent intervals")
 
     def written(self) -> list[tuple[str, Any]]:
         pb = env.pb()
@@ -178,6 +192,20 @@ def run_states(tier: str) -> dict[str, Any]:
             check([mk(a, 1), mk(b, 2)], (hash((a, b)) & 1) == 0, "noise pairs")
     finally:
         s.close()
+    # while a keepalive ping is outstanding (the first message after the ping is not the pong): every type, alone and followed by the pong
+    for noise in (False, True):
+        got = []
+        s = Sess(noise=noise, keepalive=10.0)
+        try:
+            s.client.subscribe_states(got.append)
+            s.written()
+            for t in types:
+                s.until_ping_outstanding()
+                check([mk(t, 2)], True, "ping outstanding")
+                s.until_ping_outstanding()
+                check([mk(t, 3), mk(t, 4)], False, "ping outstanding, two chunks")
+        finally:
+            s.close()
     return {"part": "states", "evals": evals, "viol": viol, "types": len(types)}
 
 
